@@ -82,10 +82,16 @@ func checkC13(p *Program, r *Report) {
 			r.Unk("wire field "+pf.path, "", "not in the abstract output message")
 			continue
 		}
-		if wf.labels[pf.lbl] {
-			r.OK("wire field "+pf.path, "", "carries "+pf.lbl+" (label source is live)")
+		live := false
+		for _, ev := range wf.stores {
+			if ev.ctl[pf.lbl] {
+				live = true
+			}
+		}
+		if live {
+			r.OK("wire field "+pf.path, "", "stored under "+pf.lbl+" (label source is live)")
 		} else {
-			r.Unk("wire field "+pf.path, "", fmt.Sprintf("expected control label %s, found %s: option loads are no longer recognised", pf.lbl, wf.labels))
+			r.Unk("wire field "+pf.path, "", fmt.Sprintf("expected a store under control label %s, found labels %s: option loads are no longer recognised", pf.lbl, wf.labels))
 		}
 	}
 }
